@@ -260,13 +260,22 @@ def run(tier, seed):
     fz, ez = run_case_check("C10z", PRELUDE, "list (node (T:=float)) * nat * float * nat * float * float", "chk10z", zc, per_file=300)
     for e in errors + ez:
         res.violation("model evaluation failed (coqc)", dict(kind="coqc-error", log=e, no_failing_input_found=True))
-    res.traces_validated = len(cases) - len(failing) + len(zc) - len(fz)
-    corr = [meta[i] for i in failing[:3]] + ([dict(next_zeta_cases_failed=len(fz))] if fz else [])
+    # ---- whole passes of real even-sampling runs (parent before/after, children put on the queue) through Model/Traj.step_es
+    import pes, ptraj
+    ec, emeta = pes.collect_es(res, rng, 10 if tier == "quick" else 200, 60 if tier == "quick" else 1500)
+    fe, ee = run_case_check("C10es", ptraj.PRELUDE_T.rstrip().rstrip(".") + " SpawnStack.\n", "caseS", "chkES", ec, per_file=10, timeout=1500)
+    for e in ee:
+        res.violation("model evaluation failed (coqc)", dict(kind="coqc-error", log=e, no_failing_input_found=True))
+    res.traces_validated = len(cases) - len(failing) + len(zc) - len(fz) + len(ec) - len(fe)
+    corr = [meta[i] for i in failing[:3]] + ([dict(next_zeta_cases_failed=len(fz))] if fz else []) + [dict(emeta[i], what="full even-sampling pass (Model/Traj.step_es vs the loop body of EvenSamplingTrajectory.simulate)") for i in fe[:4]]
     if bad:
         res.violation("implementation violates: " + bad[0]["failed"], dict(kind="oracle", failing_inputs=bad[:4], correspondence_failures=corr))
     elif corr:
-        res.violation("implementation differs from Model/SpawnStack.v (theorems no longer cover the code)",
-                      dict(kind="correspondence", correspondence="Run/R10: SpawnStack.weights / next_index / marginal vs the weights of a real even-sampling tree", failing_inputs=corr, no_failing_input_found=True))
+        only_es = bool(fe) and not failing and not fz
+        res.violation("loop body of an even-sampling run differs from Model/Traj.step_es (Run/RTraj.chkES): C10_full_step_weight_conserved / C10_full_step_parent_unchanged no longer cover the code" if only_es
+                      else "implementation differs from Model/SpawnStack.v (theorems no longer cover the code)",
+                      dict(kind="correspondence", correspondence="Run/RTraj.chkES: Model/Traj.step_es vs the loop body of EvenSamplingTrajectory.simulate (parent and spawned children)" if only_es
+                           else "Run/R10: SpawnStack.weights / next_index / marginal vs the weights of a real even-sampling tree", failing_inputs=corr, no_failing_input_found=True))
     return finish(res, thm,
                   rule="real BatchedTraj(EvenSamplingTrajectory) trees on simple/dual/extended/super with stacks [n],[n,m],[n,m,k] for all five rules, mcsamples 1-3, explicit random trees (depth 1-3, spawn_size 1-2), "
                        "large time steps (several thresholds crossed in one step, exhausted stacks); the crossing history of every trajectory is observed by class-level wrappers and replayed through SpawnStack.weights; "
